@@ -34,6 +34,8 @@ def leaves(enc):
                 out.append(("path", e["__p"]))
             elif "__abs" in e:
                 out.append(("abs", e["__abs"]))
+            elif "__pabs" in e:
+                out.append(("abs", e["__pabs"]))
             elif "__t" in e:
                 for x in e["__t"]:
                     rec(x)
